@@ -214,6 +214,20 @@ def _b_hier(ctx, size):
     return dict(args=(d['ref'][0], d['ref'][1], d['est'][0], d['est'][1]), kw=dict(frame_size=0.5))
 
 
+def _b_hier_spans(ctx, size):
+    """two-level hierarchies whose durations are independent: the estimate may end before or after the reference"""
+    n, m = size[:2]
+    out = []
+    for tag, k in (('r', n), ('e', m)):
+        Tt = ctx.gridnum('T' + tag, 100000)
+        ctx.assume(Tt > 0)
+        ctx.assume(Tt <= 2.0)
+        hs = [T.seg_intervals(ctx, '%s0_' % tag, 1, Tt), T.seg_intervals(ctx, '%s1_' % tag, k, Tt)]
+        ls = [['%s0_0' % tag], ['%s1_%d' % (tag, i) for i in range(k)]]
+        out += [hs, ls]
+    return dict(args=tuple(out), kw=dict(frame_size=0.5))
+
+
 def _b_align(ctx, size):
     d = T.b_alignment('pcs')(ctx, size)
     return dict(args=(d['ref'][0], d['est'][0]), kw={})
